@@ -923,13 +923,16 @@ class Oracles:
                 if tm.started and not tm.forgotten and not tm.may_forget:
                     lo += 1
             nr, ncn, ne = pool.num_running, pool.num_cancelled, pool.num_ended
-            if not pm.size_assigned:
+            if not pm.size_dirty:
+                # (a size assigned while the pool was unoccupied is as good as a constructor value; assignments with slots in use are
+                #  the territory of C15 and its open finding)
+                P = {"C01", "C15"} if pm.size_assigned else {"C01"}
                 if live > pm.size:
-                    w.fail({"C01"}, "size/live-workers-exceed-size", f"{pm.name}: {live} > {pm.size}")
+                    w.fail(P, "size/live-workers-exceed-size", f"{pm.name}: {live} > {pm.size}")
                 if nr > pm.size:
-                    w.fail({"C01"}, "size/num_running-exceeds-size", f"{pm.name}: {nr} > {pm.size}")
+                    w.fail(P, "size/num_running-exceeds-size", f"{pm.name}: {nr} > {pm.size}")
                 if pm.size == inf and pool.is_full:
-                    w.fail({"C01"}, "size/unbounded-pool-is-full", pm.name)
+                    w.fail(P, "size/unbounded-pool-is-full", pm.name)
                 if live == pm.size and pm.size not in (0, inf) and any(self.req_active(r) for r in pm.reqs):  # type: ignore[attr-defined]
                     w.label("pool-full-with-spawner-waiting")
                     pm.was_full_waiting = True  # type: ignore[attr-defined]
@@ -1012,11 +1015,11 @@ class Oracles:
             if not pm.closed:
                 if nr != live:
                     w.fail({"C02", "C03"}, "idle/num_running-vs-live-workers", f"{pm.name}: num_running {nr}, live workers {live}")
-            if not pm.size_assigned and not pm.closed:
+            if not pm.size_dirty and not pm.closed:
                 if not anycb:
                     full = pool.is_full
                     if full != (live == pm.size):
-                        w.fail({"C01", "C02"}, "idle/is_full-vs-live", f"{pm.name}: is_full={full} live={live} size={pm.size}")
+                        w.fail({"C01", "C02"} | ({"C15"} if pm.size_assigned else set()), "idle/is_full-vs-live", f"{pm.name}: is_full={full} live={live} size={pm.size}")
                     if live == pm.size:
                         w.label("idle:pool-full")
             for tm in pm.tasks.values():
@@ -1261,6 +1264,14 @@ class Oracles:
             if not sp.done():
                 if not rm.cancelled:
                     w.fail(C, "final/spawner-never-finished", rid)
+            elif sp.cancelled() and getattr(rm, "iter_cancelled", None) is not None and not rm.cancelled:
+                # the user's argument iterable raised CancelledError: the request ends there, what was pulled before was processed
+                for c in rm.calls:
+                    if not self.args_ok(rm, c):
+                        w.fail(C, "call/wrong-arguments", f"{rid}[{c.idx}]")
+                if self.accounted(pm, rm) != rm.iter_cancelled:  # type: ignore[attr-defined]
+                    w.fail(C, "final/number-of-invocations", f"{rid}: {self.accounted(pm, rm)} invocations, iterator raised CancelledError at {rm.iter_cancelled}")  # type: ignore[attr-defined]
+                return
             elif not sp.cancelled() and sp.exception() is not None:
                 if getattr(rm, "bad_return", None) is not None and type(sp.exception()).__name__ == "NotCoroutine":
                     # the user's function returned something that is not a coroutine: the request dies there, nothing more is owed
